@@ -59,6 +59,11 @@ def preimage_keys(p, seed, idxs, salts=(0, 1)):
         for rank in (1, 2, 21, 40, nb, nb + 1):
             for s in salts:
                 out.append(models.hll_key_for(idx, rank, p, seed, s))
+        # remainders just below a power of two (all ones under the leading one): where a float-based
+        # bit-length computation would round up
+        for rank in (1, 2, 3, 4, 5, 12):
+            for s in ("ones", "ones0"):
+                out.append(models.hll_key_for(idx, rank, p, seed, s))
     return out
 
 
@@ -101,7 +106,8 @@ class Checker:
     def __call__(self, touched, step):
         if step["op"] == "merge":
             self.nt.add("self_merge" if step["i"] == step["j"] else "merge")
-        for i in sorted(touched):
+        # every sketch, not only the touched one: an operation on one sketch must not leak into another
+        for i in range(self.w.n):
             self.check_sketch(i)
 
     def flags(self):
@@ -114,6 +120,7 @@ def _draw_universe(self, data, cfg):
     m = 1 << p
     idxs = data.draw(st.lists(st.sampled_from([0, 1, m // 2, m - 1]), min_size=1, max_size=2, unique=True), label="idxs")
     pre = preimage_keys(p, seed, idxs)
+    pre = pre[-12:] + pre[:-12] if data.draw(st.booleans(), label="ones_first") else pre
     # interleave so that small rule indices reach both kinds
     out = []
     for a, b in itertools.zip_longest(pre, base):
@@ -146,6 +153,7 @@ def _enum_orderings(arg):
     ranks = [[1, 2, 21, nb + 1, nb], [3, 3, 40, 1, nb + 1], [nb + 1, 1, 1, 2, 30]][variant % 3]
     idxs = [[0, 0, 0, m - 1, m - 1], [5, 5, 5, 5, 6], [0, 1, 1, 1, 0]][variant % 3]
     keys = [models.hll_key_for(idxs[t], ranks[t], p, seed, t) for t in range(nkeys)]
+    keys[0] = models.hll_key_for(idxs[0], 1 + variant % 3, p, seed, "ones")
     if variant % 2:
         keys[-1] = b""  # the empty key (hash 0 for seed 0: rank 64-p+1 in register 0)
     keys = list(dict.fromkeys(keys))
